@@ -58,6 +58,21 @@ Theorem C08_key_shape :
 Proof. exact keygen_shape. Qed.
 Print Assumptions C08_key_shape.
 
+(* (b'') file mode (cache/shared.py:execute_tasks_h5, the statements from the resource merge to the
+   serialize_funct_h5 call, regenerated): the dictionary hashed into the key is the MERGED one - the
+   call's own resources completed by the executor-level defaults (C10_file_mode_merge says what
+   that is) - so calls that differ only in an executor-level resource have different pickles *)
+From EL Require Import Gen.CacheRes Gen.CacheKey.
+Theorem C08_file_mode_key_uses_merged_resources :
+  forall dumps get_hash name td rd a k m td' rd' f,
+    file_mode_resources td rd = Ok (VTuple [m; td'; rd']) ->
+    py_getitem td (VStr KeyGen.fn_key) = Ok f ->
+    file_mode_key dumps get_hash name td rd a k
+    = (r <- serialize_funct_h5 dumps get_hash name f a k m ;;
+       '(key, data) <- py_unpack2 r ;; Ok (VTuple [key; data; m])).
+Proof. exact file_key_uses_merged_resources. Qed.
+Print Assumptions C08_file_mode_key_uses_merged_resources.
+
 (* (d) file mode never accepts an incomplete entry (every crash point of the worker) ... *)
 Theorem C08_file_mode_serves_only_complete_entries :
   forall (fin : file) (leftover : option file) (k : nat),
